@@ -200,6 +200,27 @@ fn check_reader(c: i32) -> Result<(), Fail> {
         // invalid header code
         let mut shp = enc.shp.clone();
         shp[32..36].copy_from_slice(&c.to_le_bytes());
+        {
+            let p = std::path::PathBuf::from(format!("/verif/target/scratch/{}", std::process::id())).join(format!("c19h-{:?}.shp", std::thread::current().id()).replace(['(', ')'], ""));
+            if let Some(dir) = p.parent() {
+                let _ = std::fs::create_dir_all(dir);
+            }
+            if std::fs::write(&p, &shp).is_ok() && std::fs::write(p.with_extension("shx"), &enc.shx).is_ok() && std::fs::write(p.with_extension("dbf"), vlib::libops::dbf_with_rows(1)).is_ok() {
+                let a = shapefile::Reader::from_path(&p).map(|_| ());
+                let b = shapefile::read(&p).map(|_| ());
+                let d = shapefile::read_shapes(&p).map(|_| ());
+                for e in ["shp", "shx", "dbf"] {
+                    let _ = std::fs::remove_file(p.with_extension(e));
+                }
+                for (what, r) in [("Reader::from_path", a), ("shapefile::read(path)", b), ("shapefile::read_shapes(path)", d)] {
+                    match r {
+                        Err(Error::InvalidShapeType(x)) if x == c => {}
+                        Err(e) => return Err(Fail::new("wrong-error", format!("{} on a .shp whose header carries the invalid code {}: {:?}", what, c, e))),
+                        Ok(()) => return Err(Fail::new("invalid-header-accepted", format!("{} accepted the .shp header code {}", what, c))),
+                    }
+                }
+            }
+        }
         match ShapeReader::new(Cursor::new(shp)) {
             Err(Error::InvalidShapeType(x)) if x == c => {}
             Err(e) => return Err(Fail::new("wrong-error", format!("ShapeReader::new with header code {}: {:?}", c, e))),
@@ -242,6 +263,24 @@ fn check_reader(c: i32) -> Result<(), Fail> {
             match open()?.read() {
                 Err(Error::InvalidShapeType(x)) if x == c => {}
                 other => return Err(Fail::new("wrong-error", format!("record with code {} through with_shx(..).read(): {:?}", c, other.map(|v| v.len())))),
+            }
+            for with_index in [true, false] {
+                let sr = if with_index { open()? } else { ShapeReader::new(Cursor::new(enc.shp.clone())).map_err(|e| Fail::new("open-error", format!("{:?}", e)))? };
+                let mk = |sr| -> Result<shapefile::Reader<Cursor<Vec<u8>>, Cursor<Vec<u8>>>, Fail> {
+                    let dr = shapefile::dbase::Reader::new(Cursor::new(vlib::libops::dbf_with_rows(1))).map_err(|e| Fail::new("harness/dbf", format!("{:?}", e)))?;
+                    Ok(shapefile::Reader::new(sr, dr))
+                };
+                let mut rd = mk(sr)?;
+                let first = rd.iter_shapes_and_records().next();
+                match first {
+                    Some(Err(Error::InvalidShapeType(x))) if x == c => {}
+                    other => return Err(Fail::new("wrong-error", format!("record with code {} through Reader::iter_shapes_and_records() (index: {}): {:?}", c, with_index, other.map(|r| r.map(|(s, _)| variant_ty(&s)))))),
+                }
+                let sr = if with_index { open()? } else { ShapeReader::new(Cursor::new(enc.shp.clone())).map_err(|e| Fail::new("open-error", format!("{:?}", e)))? };
+                match mk(sr)?.read() {
+                    Err(Error::InvalidShapeType(x)) if x == c => {}
+                    other => return Err(Fail::new("wrong-error", format!("record with code {} through Reader::read() (index: {}): {:?}", c, with_index, other.map(|v| v.len())))),
+                }
             }
             match open()?.read_nth_shape(0) {
                 Some(Err(Error::InvalidShapeType(x))) if x == c => {}
